@@ -41,6 +41,24 @@ fn main() {
             match integrate(*a, *b, |x| f(x), tol) { Ok(v) => if (v - exact).abs() > 100.0 * tol { found.push(format!("integrate (tanh-sinh) {name} tol={tol:e}: error {:e}", (v - exact).abs())); }, Err(e) => found.push(format!("integrate (tanh-sinh) {name} tol={tol:e}: Err({e})")) }
         }
     }
+    // the smooth family c exp(a x) + d sin(w x) over a range of AMPLITUDES: a stopping rule that fires on the coarsest levels
+    // (where consecutive changes are not yet an error estimate) only shows when the integrand is small compared with 1
+    {
+        let mut s2 = 424242u64;
+        let mut r2 = move || { s2 = s2.wrapping_mul(6364136223846793005).wrapping_add(1442695040888963407); (s2 >> 33) as f64 / (1u64 << 31) as f64 };
+        for trial in 0..400 {
+            let amp = [1.0, 1e-2, 1e-4, 1e-6][trial % 4];
+            let (c, d, a, w) = (amp * (0.5 + r2()), amp * (r2() * 4.0 - 2.0), r2() * 2.0 - 1.0, 0.5 + 3.0 * r2());
+            let lo = r2() * 4.0 - 2.0; let hi = lo + 0.5 + 3.0 * r2();
+            let tol = [1e-6, 1e-8, 1e-10][trial % 3];
+            let prim = |x: f64| (if a.abs() < 1e-12 { c * x } else { c * (a * x).exp() / a }) - d * (w * x).cos() / w;
+            let exact = prim(hi) - prim(lo);
+            match integrate(lo, hi, |x: f64| c * (a * x).exp() + d * (w * x).sin(), tol) {
+                Ok(v) => if (v - exact).abs() > 10.0 * tol + 1e-13 * amp { found.push(format!("integrate (tanh-sinh) {c:e} exp({a} x) + {d:e} sin({w} x) on [{lo}, {hi}] tol={tol:e}: error {:e}", (v - exact).abs())); },
+                Err(e) => found.push(format!("integrate (tanh-sinh) smooth family trial {trial}: Err({e})")),
+            }
+        }
+    }
     match integrate(1.0, 2.0, |x: f64| x * x, 1e-6) { Ok(v) => if (v - 7.0 / 3.0).abs() > 1e-4 { found.push(format!("integrate (tanh-sinh) x^2 on [1,2]: {v}")); }, Err(e) => found.push(format!("integrate (tanh-sinh) x^2 on [1,2]: Err({e})")) }
     // validation
     if integrate(2.0, 1.0, |x: f64| x, 1e-6).is_ok() { found.push("integrate accepted a reversed interval".into()); }
